@@ -17,7 +17,9 @@ import (
 
 var entities = gen.Stores()[1].ToImpl()
 
-func ent(t, id string) types.EntityUID { return types.NewEntityUID(types.EntityType(t), types.String(id)) }
+func ent(t, id string) types.EntityUID {
+	return types.NewEntityUID(types.EntityType(t), types.String(id))
+}
 func rec(kv ...any) types.Record {
 	m := types.RecordMap{}
 	for i := 0; i < len(kv); i += 2 {
@@ -271,7 +273,9 @@ func runOne(t *core.T, ps *cedar.PolicySet, psDesc string, tp template, vl map[s
 		vars[types.String(name)] = vl[name]
 		vlDesc = append(vlDesc, fmt.Sprintf("%s=%v", name, vl[name]))
 	}
-	in := func() string { return fmt.Sprintf("policies {%s}; %s; values %s", psDesc, tp.desc, strings.Join(vlDesc, " ")) }
+	in := func() string {
+		return fmt.Sprintf("policies {%s}; %s; values %s", psDesc, tp.desc, strings.Join(vlDesc, " "))
+	}
 	req := batch.Request{Principal: tp.p, Action: tp.a, Resource: tp.r, Context: tp.c, Variables: vars}
 	// expected Cartesian product (multiset of value assignments)
 	want := map[string]int{}
@@ -423,7 +427,9 @@ func mainFamily(setSize, maxList int) *core.Family {
 			if cbs > 0 && nv > 0 {
 				t.Nontrivial()
 			}
-			t.SampleF(func() string { return fmt.Sprintf("policies {%s}; %s; %d value-list combinations, %d callbacks", psDesc, tp.desc, combos, cbs) })
+			t.SampleF(func() string {
+				return fmt.Sprintf("policies {%s}; %s; %d value-list combinations, %d callbacks", psDesc, tp.desc, combos, cbs)
+			})
 		},
 	}
 }
